@@ -260,13 +260,23 @@ func (fw *FileWriter) flushLocked() error {
 		return nil // Nothing to flush
 	}
 
+	// Remember where the block starts: a failed or short write (disk full, I/O error) must not
+	// leave a partial block in the file, because every block appended behind it would be
+	// unreadable.
+	blockStart, err := fw.file.Seek(0, io.SeekCurrent)
+	if err != nil {
+		return err
+	}
+
 	// Write block header
 	if _, err := fw.file.Write(header.Serialize()); err != nil {
+		fw.rollbackTo(blockStart)
 		return err
 	}
 
 	// Write compressed data
 	if _, err := fw.file.Write(compressed); err != nil {
+		fw.rollbackTo(blockStart)
 		return err
 	}
 
@@ -294,6 +304,13 @@ func (fw *FileWriter) flushLocked() error {
 	}
 
 	return nil
+}
+
+// rollbackTo removes a partially written block again (best effort).
+func (fw *FileWriter) rollbackTo(offset int64) {
+	if err := fw.file.Truncate(offset); err == nil {
+		_, _ = fw.file.Seek(offset, io.SeekStart)
+	}
 }
 
 // Sync flushes the buffer and syncs to disk
